@@ -200,6 +200,9 @@ DEFS = {
     "untyped property with a typed setter": "@property\ndef {n}(self): ...\n@{n}.setter\ndef {n}(self, value: int) -> None: ...",
     "typed property with a differently typed setter": "@property\ndef {n}(self) -> str: ...\n@{n}.setter\ndef {n}(self, value: int) -> None: ...",
     "function with a lambda default": "def {n}(self, enc=lambda s, encoding='utf-8', errors='strict': s): ...",
+    "function under an unrelated decorator named overload": "@registry.overload\ndef {n}(self, a): ...",
+    "function under an unrelated decorator factory named overload": "@registry.overload('len')\ndef {n}(self, a): ...",
+    "property defined again after its setter and deleter": "@property\ndef {n}(self): ...\n@{n}.setter\ndef {n}(self, value): ...\n@{n}.deleter\ndef {n}(self): ...\n@property\ndef {n}(self) -> int: ...",
     "function with a keyword-only lambda default": "def {n}(self, key=lambda *, k=1: k): ...",
     "function with a positional-only then keyword-only lambda default": "def {n}(self, key=lambda a, /, *, k: a): ...",
     "function with a nested-call default": "def {n}(self, retry=dict(policy=dict(base=2), **dict(strict=True))): ...",
@@ -279,7 +282,7 @@ def _definition_table(prog: Program, ctx: Ctx, rule: str = "R5") -> None:
         alone[dname] = got
         # reference: CPython's own view of the same class body
         ns: dict = {}
-        exec(compile("from __future__ import annotations\nimport functools, typing\ntyping_extensions = typing\nd1 = 'd1'\nd2 = 'd2'\ndef passthrough(f): return f\nclass K:\n"  # noqa: S102
+        exec(compile("from __future__ import annotations\nimport functools, typing\ntyping_extensions = typing\nd1 = 'd1'\nd2 = 'd2'\ndef passthrough(f): return f\nclass registry:\n    @staticmethod\n    def overload(f): return f if callable(f) else (lambda g: g)\nclass K:\n"  # noqa: S102
                      + "\n".join("    " + ln for ln in tmpl.format(n="x").splitlines()), "<def>", "exec", dont_inherit=True), ns)
         raw = ns["K"].__dict__["x"]
         is_prop = isinstance(raw, property) or type(raw).__name__ == "cached_property"
